@@ -39,6 +39,8 @@ type View struct {
 	QESeq  int    `json:"q_eseq"`
 	QULen  int    `json:"q_ulen"`
 	QL4    int    `json:"q_l4"` // quoted L4 bytes present
+	QHdr   bool   `json:"q_hdr"`  // the quoted IP header itself decodes
+	QEcho  bool   `json:"q_echo"` // first quoted L4 byte is an echo request/reply type
 	Size   int    `json:"size"`
 }
 
@@ -138,10 +140,16 @@ func describeQuote(v *View, v6 bool, body []byte) {
 		v.QULen = qip.TotLen - 40
 	}
 	v.QL4 = len(qpl)
+	v.QHdr = true
 	if len(qpl) < 8 {
 		return
 	}
 	v.Q = true
+	if v6 {
+		v.QEcho = qpl[0] == 128 || qpl[0] == 129
+	} else {
+		v.QEcho = qpl[0] == 8 || qpl[0] == 0
+	}
 	// raw interpretation of the first 8 quoted L4 bytes under every protocol's layout; the TLA+ side
 	// picks the fields that are meaningful for the variant
 	v.QSPort, v.QDPort = int(be.Uint16(qpl[0:2])), int(be.Uint16(qpl[2:4]))
